@@ -709,6 +709,40 @@ func (t *ftr) stmts(list []ast.Stmt, c fctx, k func(c fctx) string) string {
 	case *ast.BlockStmt:
 		return t.stmts(x.List, c, next)
 	case *ast.AssignStmt:
+		if len(x.Lhs) == 2 && len(x.Rhs) == 1 && x.Tok == token.DEFINE {
+			// `a, b := opaque()`: both results are declared parameters `<call>#0`, `<call>#1`
+			rs := types.ExprString(x.Rhs[0])
+			p0, p1 := t.param(rs+"#0"), t.param(rs+"#1")
+			if p0 != nil && p1 != nil {
+				out := ""
+				for i, prm := range []*fparam{p0, p1} {
+					id, ok := x.Lhs[i].(*ast.Ident)
+					if !ok {
+						return c.indent + t.fail(x, "tuple assignment target") + "\n"
+					}
+					obj := t.p.info.Defs[id]
+					if obj == nil {
+						return c.indent + t.fail(x, "tuple assignment redeclares %s", id.Name) + "\n"
+					}
+					ty, ok := basicFtype(obj.Type())
+					if !ok {
+						return c.indent + t.fail(x, "local %s has no scalar type", id.Name) + "\n"
+					}
+					if c.sealed {
+						return c.indent + t.fail(x, "opaque tuple read after an opaque call") + "\n"
+					}
+					prm.used, prm.typ, prm.typed = true, ty, true
+					if _, dup := c.locals[id.Name]; dup {
+						return c.indent + t.fail(x, "local %s shadows another local", id.Name) + "\n"
+					}
+					c = c.with(id.Name, ty)
+					if leanName(id.Name) != prm.name {
+						out += fmt.Sprintf("%slet %s : %s := %s\n", c.indent, leanName(id.Name), ty.lean(), prm.name)
+					}
+				}
+				return out + next(c)
+			}
+		}
 		if len(x.Lhs) != 1 || len(x.Rhs) != 1 {
 			return c.indent + t.fail(x, "multiple assignment") + "\n"
 		}
@@ -1297,6 +1331,15 @@ func baseFacts() []*fact {
 				{src: "z.usub(x, y)", code: 2, havoc: kernelHavoc},
 				{src: "z.usub(y, x)", code: 3, havoc: kernelHavoc},
 				{src: "z.Set(x)", code: 4}, {src: "z.Set(y)", code: 5}}},
+		// conversions with saturation
+		{lean: "Int64", fn: "Decimal.Int64", params: ps("form", "x.form", "neg", "x.neg", "exp", "x.exp", "minPrec", "x.MinPrec()",
+			"tv", "x.intMant().toUint64()#0", "tok", "x.intMant().toUint64()#1")},
+		{lean: "Uint64", fn: "Decimal.Uint64", params: ps("form", "x.form", "neg", "x.neg", "exp", "x.exp", "minPrec", "x.MinPrec()",
+			"rv", "x.intMant().toUint64()#0", "rok", "x.intMant().toUint64()#1")},
+		{lean: "Abs", fn: "Decimal.Abs", stateful: true,
+			doc:     "the sign after z.Set(x) (sneg = sign left by Set)",
+			params:  append(ps("sneg", "<sign after Set>"), st("zNeg", "z.neg")...),
+			effects: []*feffect{{src: "z.Set(x)", code: 1, havoc: [][2]string{{"z.neg", "<sign after Set>"}}}}},
 		// the unsigned kernels: exponent arithmetic, branch selection and the shift/extension amounts; the
 		// mantissa statements are recorded in `mtrace` (code, integer arguments) in execution order
 		{lean: "uadd", fn: "Decimal.uadd", stateful: true,
